@@ -16,6 +16,7 @@ type.
    any part of the spec is data-driven or provided by an end user.
 
 """
+import inspect
 import operator
 from pprint import pprint
 
@@ -333,7 +334,31 @@ class Delete:
         try:
             if get is None:
                 get = scope[TargetRegistry].get_handler('get', dest)
+            if get is getattr:
+                return Delete._attr_is_missing(dest, arg)
             get(dest, arg)
+        except Exception:
+            return True
+        return False
+
+    @staticmethod
+    def _attr_is_missing(dest, name):
+        # (looked up statically: a plain read may run __getattr__, which can
+        # create the attribute, and finds values that only the class has -
+        # those are not the instance's to delete)
+        try:
+            found = inspect.getattr_static(dest, name)
+        except AttributeError:
+            return True
+        try:
+            if name in vars(dest):
+                return False
+        except TypeError:  # no __dict__
+            pass
+        if not (hasattr(type(found), '__set__') or hasattr(type(found), '__delete__')):
+            return True  # a plain value / method of the class
+        try:  # a property, a slot, a namedtuple field, ...: there if it can be read
+            found.__get__(dest, type(dest))
         except Exception:
             return True
         return False
